@@ -17,7 +17,7 @@ def page(title, body="text\n", ordered=(), copy=(), extra=""):
 
 TREES = {
     "basic": ({
-        "index.md": page("Root", "see [A](a.html) and [C](sub/c.html) and [[m]] ![logo](|media|/logo.png) [abs](|page|/sub/index.html) [home](|url|/index.html)\n"),
+        "index.md": page("Root", "see [A](a.html) and [C](sub/c.html) and [[m]] ![logo](|media|/logo.png) [abs](|page|/sub/index.html) [home](|url|/index.html) [top](|url|)\n"),
         "a.md": page("A", "back [root](index.html) [[s]]\n"), "b.md": page("B"), "notes.txt": "plain", ".hidden.md": page("Hidden"), "backup.md~": page("Backup"),
         "untitled.md": "just text without metadata\n", "sub/index.md": page("Sub", "up [root](../index.html) ![i](img.png) [[m]]\n"), "sub/c.md": page("C", "[up](index.html) [top](../a.html) ![logo](|media|/logo.png)\n"),
         "sub/img.png": "png", "nodir/x.md": page("X"), "nodir/data.bin": "bin"}, ""),
@@ -35,7 +35,7 @@ TREES = {
         "t2/index.md": page("T2", "![m](media/m2.png)\n"), "t2/media/m2.png": "m2"}, "copy_subdir: media\n"),
     "three levels": ({
         "index.md": page("Root", "[deep](l1/l2/leaf.html)\n"), "l1/index.md": page("L1", "[down](l2/index.html) [up](../index.html)\n"), "l1/l2/index.md": page("L2", "[top](../../index.html) ![logo](|media|/logo.png)\n"),
-        "l1/l2/leaf.md": page("Leaf", "[root](|page|/index.html) [l1](../index.html) [[m]] [[s]]\n"), "l1/l2/pic.svg": "<svg/>", "l1/side.md": page("Side", "[leaf](l2/leaf.html)\n")}, ""),
+        "l1/l2/leaf.md": page("Leaf", "[root](|page|/index.html) [l1](../index.html) [[m]] [[s]] [docs](|url|)\n"), "l1/l2/pic.svg": "<svg/>", "l1/side.md": page("Side", "[leaf](l2/leaf.html)\n")}, ""),
     "sub-directory whose index has no title": ({
         "index.md": page("Root"), "good.md": page("Good"), "broken/index.md": "no metadata here\n", "broken/inner.md": page("Inner"), "z.md": page("Z")}, ""),
 }
